@@ -59,6 +59,7 @@ var (
 	prefix  []int
 	res     *Result
 	finish  chan struct{}
+	over    bool // the run has been ended (all done, or deadlock declared)
 	maxPts  int
 )
 
@@ -69,7 +70,9 @@ var (
 // primitives: that is the legal schedule in which the background goroutine is
 // slow, and it keeps the scheduler's single-running-thread invariant intact.
 func Active() bool {
-	if !active {
+	if !active || over {
+		// (over: a deadlock was declared; threads unwinding their stacks run deferred
+		// unlocks, which must not schedule any more)
 		return false
 	}
 	cur := current
@@ -100,6 +103,8 @@ func Run(bodies []func(), choices []int, maxPoints int) Result {
 	r := &Result{}
 	res, prefix, maxPts = r, choices, maxPoints
 	threads = nil
+	over = false
+	finishClosed = false
 	finish = make(chan struct{})
 	for i, body := range bodies {
 		t := &thread{id: i, resume: make(chan struct{}, 1)}
@@ -119,6 +124,11 @@ func Run(bodies []func(), choices []int, maxPoints int) Result {
 				body()
 			}()
 			t.done = true
+			if over {
+				// unwound after a deadlock was declared: only now may Run return.
+				closeFinish()
+				return
+			}
 			yield(t, "exit")
 		}()
 	}
@@ -134,11 +144,37 @@ func Run(bodies []func(), choices []int, maxPoints int) Result {
 	first.resume <- struct{}{}
 	<-finish
 	active = false
+	over = false // no thread is unwinding any more: the others stay parked for ever
 	current = nil
 	return *r
 }
 
 type abort struct{}
+
+var finishClosed bool
+
+func closeFinish() {
+	if !finishClosed {
+		finishClosed = true
+		close(finish)
+	}
+}
+
+// Zombie reports whether the caller is a thread of a run in which a deadlock
+// was declared: it is unwinding its stack, and the primitives it touches on the
+// way (deferred unlocks) must neither schedule nor touch real locks.
+func Zombie() bool {
+	if !over {
+		return false
+	}
+	id := goid()
+	for _, t := range threads {
+		if t.goid == id {
+			return true
+		}
+	}
+	return false
+}
 
 // enabledList returns the canonical enabled list for a decision taken by t (nil at start).
 func enabledList(t *thread) (list []*thread, runningEnabled bool) {
@@ -179,6 +215,9 @@ func decide(t *thread, op string) *thread {
 
 // yield lets the scheduler decide; called by the running thread t.
 func yield(t *thread, op string) {
+	if over {
+		return
+	}
 	if maxPts > 0 && len(res.Points) >= maxPts {
 		// horizon reached: abort the execution (reported by the caller as a cap).
 		res.Diverged = "horizon"
@@ -192,10 +231,13 @@ func yield(t *thread, op string) {
 				res.Deadlock = true
 			}
 		}
-		close(finish)
+		over = true
 		if !t.done {
-			panic(abort{}) // unwinds the blocked thread's stack; goroutine ends
+			// unwinds the blocked thread's stack (deferred unlocks become no-ops, see
+			// Zombie); the goroutine's wrapper ends the run when the stack is gone.
+			panic(abort{})
 		}
+		closeFinish()
 		return
 	case next == t:
 		return
